@@ -33,7 +33,7 @@ class Run:
     def __init__(self, desc):
         self.desc = desc
         self.rng = random.Random(desc['seed'])
-        self.net = NET.Net(desc['lenreq'], desc['frag_client'], desc['frag_server'])
+        self.net = NET.Net(desc['lenreq'], desc['frag_client'], desc['frag_server'], lease=desc.get('lease', False))
         self.queued = {'client': [], 'server': []}
         self.k = 0
         self.inter = []           # interactions
@@ -146,7 +146,15 @@ class Run:
                 it['down_done'] = True
             did = True
         # requester -> responder direction of a channel
-        if kind == 'rc' and it['pub'].subscriber is not None and not it.get('up_done') and (force or self.rng.random() < 0.7):
+        held = False
+        if kind == 'rc' and self.net.lease is not None and not it.get('request_left'):
+            # known finding KF-C01-lease-channel-elements-before-request: while the REQUEST_CHANNEL is held back for want of a
+            # lease the publisher's elements would overtake it; the random runs wait (the finding has its own replay)
+            it['request_left'] = any(q['t'] == 'RequestChannel' and q.get('d') == it['req'][1][:len(q.get('d') or b'')]
+                                     and q.get('d') for q in self.queued[it['side']])
+            held = not it['request_left']
+        if kind == 'rc' and not held and it['pub'].subscriber is not None and not it.get('up_done') and \
+                (force or self.rng.random() < 0.7):
             s = it['pub'].subscriber
             if it['up_sent'] < len(it['up']):
                 if self._emit(s, it['up'], it['up_sent'], it['up_style']):
@@ -160,14 +168,28 @@ class Run:
             it['done'] = True
         return did
 
+    def grant(self, n):
+        """a new lease is granted when nothing is in flight, so that what was sent under the previous lease has been counted
+        against it on both sides"""
+        net = self.net
+        net.flush(self.rng)
+        if net.lease.subscriber is None:
+            return
+        net.act(lambda: net.lease.grant(n))
+        self.leases = getattr(self, 'leases', 0) + 1
+
     def run(self):
         rng = self.rng
         net = self.net
         try:
             budget = self.desc['interactions']
+            if net.lease is not None:
+                net.flush(rng)          # SETUP (with the lease flag) reaches the server
             for _ in range(self.desc['steps']):
                 x = rng.random()
-                if x < 0.25 and budget > 0:
+                if net.lease is not None and rng.random() < 0.12:
+                    self.grant(rng.choice([1, 1, 2, 3]))
+                elif x < 0.25 and budget > 0:
                     self.start()
                     budget -= 1
                 elif x < 0.55:
@@ -183,6 +205,9 @@ class Run:
             # drain: everything still planned happens, everything written is delivered
             for _ in range(3000):
                 net.flush(rng)
+                if net.lease is not None and net.ep['client']._request_queue.qsize():
+                    self.grant(rng.choice([1, 2, 1000]))
+                    continue
                 live = [it for it in self.inter if not it['done']]
                 if not live:
                     break
@@ -256,12 +281,43 @@ class Run:
                       got=repr([(e[0],) + tuple(x[:12] if isinstance(x, bytes) else x for x in e[1:]) for e in events])[:400])
 
 
+def classify(case):
+    run = case.get('run') or {}
+    if run.get('lease') and case.get('what') == 'subscriber-saw-something-else' and case.get('kind') == 'rc' \
+            and case.get('direction') == 'up':
+        return 'KF-C01-lease-channel-elements-before-request'
+    return None
+
+
+def known_lease_channel():
+    """client honouring leases, no lease yet: request_channel with a publisher that emits at once; the PAYLOAD goes out
+    before the held REQUEST_CHANNEL and the responder drops it"""
+    from rsocket.payload import Payload
+    net = NET.Net(True, None, None, lease=True)
+    try:
+        net.flush()
+        ep = net.ep['client']
+        pub, sub = NET.RecPub(None, None), NET.RecSub(None, None)
+        net.act(lambda: ep.request_channel(Payload(b'req'), pub).subscribe(sub))
+        net.act(lambda: pub.subscriber.on_next(Payload(b'first element'), False))
+        net.flush()
+        net.act(lambda: net.lease.grant(5))
+        net.flush()
+        s = net.apps['server'].subs.get(b'req')
+        return s is not None and ('next', b'', b'first element', False) not in s.events
+    finally:
+        net.finish()
+
+
+KNOWN = {'KF-C01-lease-channel-elements-before-request': known_lease_channel}
+
+
 def mk_descs(rng, n):
     out = []
     for _ in range(n):
         out.append({'seed': rng.randrange(1 << 30), 'lenreq': rng.random() < 0.65,
                     'frag_client': rng.choice([None, 64, 64, 100]), 'frag_server': rng.choice([None, 64, 64, 100]),
-                    'interactions': rng.randint(2, 8), 'steps': rng.randint(20, 120)})
+                    'interactions': rng.randint(2, 8), 'steps': rng.randint(20, 120), 'lease': rng.random() < 0.25})
     return out
 
 
@@ -301,6 +357,7 @@ def correspond(ctx, corr, model_ok):
         if run.result['escaped']:
             corr.oracle_failures.append({'what': 'exception-escaped', 'run': d, 'detail': run.result['escaped'][:2]})
         corr.count('framing:' + ('stream' if d['lenreq'] else 'message'))
+        corr.count('with lease', 1 if d.get('lease') else 0)
         corr.count('interactions', len(run.inter))
         for it in run.inter:
             corr.count('%s started by %s' % (it['kind'], it['side']))
@@ -308,6 +365,8 @@ def correspond(ctx, corr, model_ok):
         corr.nontriv((d['seed'],))
         for c in coq_cases(run):
             cases.append((c, d))
+    corr.oracle_failures.extend(reconnect_oracle())
+    corr.count('reconnect with a stale partial frame', 4)
     corr.traces = len(descs)
     corr.rule = ('random concurrent mixes of 1..6 interactions of the five models from either side, payload sizes 0..420 bytes, '
                  'fragment sizes none/64/100 per endpoint, byte-stream framing re-chunked at random (1 byte .. everything) or '
@@ -334,10 +393,124 @@ def search(ctx, budget):
         for d in mk_descs(ctx.rng, 20):
             run = Run(d).run()
             found.extend(run.failures)
+        found.extend(reconnect_oracle())
     return found
 
 
 def replay(obj):
     case = obj.get('case') or obj
+    if 'reconnect_case' in case:
+        return bool(reconnect_oracle())
     run = Run(case['run']).run()
     return bool(run.failures)
+
+
+# ---------------------------------------------------------------------------------------------
+# a connection is lost in the middle of an inbound fragment train; on the next connection the same stream id carries a
+# new interaction: nothing of the old train may leak into it
+
+def reconnect_stale_partial(kind, lenreq=True):
+    import asyncio
+    from datetime import timedelta
+    from harness import sim
+    from rsocket.rsocket_client import RSocketClient
+    from rsocket.request_handler import BaseRequestHandler
+    from rsocket.payload import Payload
+    loop = sim.new_loop()
+    sim.patch_clock(loop)
+    T = sim.make_transport_class()
+    ts = [T(lenreq=lenreq, name='t1'), T(lenreq=lenreq, name='t2')]
+    seen = []
+    futs = []
+
+    async def provider():
+        for t in ts:
+            yield t
+
+    class H(BaseRequestHandler):
+        async def request_response(self, payload):
+            seen.append(('rr', bytes(payload.data or b'')))
+            f = loop.create_future()
+            futs.append(f)
+            return f
+
+        async def request_fire_and_forget(self, payload):
+            seen.append(('fnf', bytes(payload.data or b'')))
+
+        async def on_close(self, rsocket, exception=None):
+            await rsocket.reconnect()
+    box = {}
+
+    def frags(fr):
+        o = FR.build(fr)
+        o.fragment_size_bytes = 64
+        out = []
+        for _ in range(100):
+            g = o.get_next_fragment(lenreq)
+            if g is None:
+                break
+            out.append(g.serialize())
+        return out
+    try:
+        def mk():
+            box['c'] = RSocketClient(provider(), handler_factory=H, keep_alive_period=timedelta(seconds=100000),
+                                     max_lifetime_period=timedelta(seconds=500000))
+            asyncio.create_task(box['c'].connect())
+        loop.run(mk)
+        loop.settle()
+        c = box['c']
+        res = {}
+        if kind == 'peer-request':
+            # the server's fragmented request is cut off after its first fragments
+            old = {'t': 'RequestResponse', 'sid': 2, 'ign': False, 'follows': False, 'md': b'', 'd': b'OLD' + b'o' * 200}
+            for b in frags(old)[:2]:
+                ts[0].inject_frame(b)
+            loop.settle()
+        else:
+            # my own request: the fragmented response is cut off after its first fragments
+            box['f'] = None
+            loop.run(lambda: box.__setitem__('f', c.request_response(Payload(b'first'))))
+            loop.settle()
+            old = {'t': 'Payload', 'sid': 1, 'ign': False, 'follows': False, 'complete': True, 'next': True, 'md': b'',
+                   'd': b'OLD' + b'o' * 200}
+            for b in frags(old)[:2]:
+                ts[0].inject_frame(b)
+            loop.settle()
+        ts[0].inject_eof()
+        loop.settle()
+        res['reconnected'] = ts[1].connected
+        if kind == 'peer-request':
+            new = {'t': 'RequestFnf', 'sid': 2, 'ign': False, 'follows': False, 'md': b'', 'd': b'NEW' + b'n' * 150}
+            for b in frags(new):
+                ts[1].inject_frame(b)
+            loop.settle()
+            res['seen'] = list(seen)
+            res['ok'] = seen == [('fnf', b'NEW' + b'n' * 150)]
+        else:
+            loop.run(lambda: box.__setitem__('g', c.request_response(Payload(b'second'))))
+            loop.settle()
+            sid = [sim.parse_sent(b) for b in ts[1].sent if sim.parse_sent(b)['t'] == 'RequestResponse'][-1]['sid']
+            new = {'t': 'Payload', 'sid': sid, 'ign': False, 'follows': False, 'complete': True, 'next': True, 'md': b'',
+                   'd': b'NEW' + b'n' * 150}
+            for b in frags(new):
+                ts[1].inject_frame(b)
+            loop.settle()
+            g = box['g']
+            res['sid'] = sid
+            res['ok'] = g.done() and not g.cancelled() and g.exception() is None and bytes(g.result().data) == b'NEW' + b'n' * 150
+            res['got'] = repr(g)[:120]
+        res['errors_sent'] = [sim.parse_sent(b) for b in ts[1].sent if sim.parse_sent(b)['t'] == 'Error']
+        return res
+    finally:
+        loop.finish()
+
+
+def reconnect_oracle():
+    out = []
+    for kind in ('peer-request', 'own-request'):
+        for lenreq in (True, False):
+            r = reconnect_stale_partial(kind, lenreq)
+            if not r.get('reconnected') or not r.get('ok') or r.get('errors_sent'):
+                out.append({'what': 'stale-partial-frame-leaks-into-next-connection', 'reconnect_case': [kind, lenreq],
+                            'detail': repr(r)[:300]})
+    return out
